@@ -2307,6 +2307,19 @@ pub fn run(args: &Args, rep: &mut Report) {
             }
         }
         for (aspect, what) in &ev.model_v {
+            if aspect == "async-progress" && ev.out.stall.is_none() && !reported.contains("model:async-progress") {
+                // a call that never returned while everything was parked: a verdict about the scheduler of
+                // a loaded machine as much as about the crate. It is reported only if the same case gets
+                // stuck again in one of three further runs (a hang the code causes shows every time)
+                let again = (0..3).any(|_| {
+                    drv.begin_case();
+                    eval_case(&case, Some(&mut drv), &env).model_v.iter().any(|(a, _)| a == "async-progress")
+                });
+                if !again {
+                    rep.count("stuck_calls_not_reproduced_in_three_further_runs");
+                    continue;
+                }
+            }
             if reported.insert(format!("model:{}", aspect)) {
                 let asp = aspect.clone();
                 // a stuck call costs a whole observation period per attempt: bounded effort
